@@ -264,6 +264,12 @@ func ParseRealtime(content []byte, opts *ParseRealtimeOptions) (*Realtime, error
 	if opts.Extension == nil {
 		opts.Extension = extensions.NoExtension()
 	}
+	if perFeed, ok := opts.Extension.(extensions.PerFeedExtension); ok {
+		// The extension keeps state while it processes a message: use a fresh instance for this one.
+		feedOpts := *opts
+		feedOpts.Extension = perFeed.NewFeed()
+		opts = &feedOpts
+	}
 	feedMessage := &gtfsrt.FeedMessage{}
 	if err := proto.Unmarshal(content, feedMessage); err != nil {
 		return nil, fmt.Errorf("failed to parse input as a GTFS Realtime message: %s", err)
